@@ -59,6 +59,7 @@ class MemberLog(object):
         # events after it: completions seen during a shutdown() call are held back until the loop is over.
         self.in_shutdown = 0
         self.held_back = []
+        self.last_reply = 0.0
 
     def member_no(self, m):
         if m not in self.members:
@@ -99,6 +100,8 @@ class MemberLog(object):
         self._close_step(clock)
         self._advance(clock, fire_id)
         self.steps.append({"ev": ev, "obs": [], "snap": None})
+        if not ev.startswith("fire"):
+            self.last_reply = clock.seconds()  # something other than the member's own timers happened
 
     def ob(self, o):
         if not (isinstance(o, str) and o.startswith("consumerShutdown")):
@@ -128,7 +131,7 @@ class MemberLog(object):
         return "snap started=%s stopping=%s jif=%s needed=%s hb=%s hbif=%s sf=%s jt=%d ht=%d member=%d gen=%s cons=%s" % (
             b(g._start_d is not None), b(g._stopping), b(g._rejoin_d), b(g._rejoin_needed), b(g._heartbeat_looper.running),
             b(g._heartbeat_request_d is not None), b(self.start_d is not None and self.start_d.called),
-            sum(1 for dc in mine if not isinstance(dc.func.v_func, LoopingCall)), sum(1 for dc in mine if isinstance(dc.func.v_func, LoopingCall)),
+            sum(1 for dc in mine if dc.v_kind in ("rejoin", "retry")), sum(1 for dc in mine if dc.v_kind == "hb"),
             self.member_no(g.member_id or ""), opt(g.generation_id), cons,
         )
 
@@ -171,7 +174,10 @@ class RecReactor(object):
         import sys
 
         caller = sys._getframe(1).f_code.co_name
-        dc.v_kind = "hb" if isinstance(func, LoopingCall) else ("rejoin" if caller == "rejoin_after_error" else "retry")
+        # hb / rejoin / retry are the kinds of delayed call the code (and the model) has; anything else scheduled on the
+        # member's reactor is `other` (as in the scripted stage: a disagreement; not part of the monitors' alphabet)
+        dc.v_kind = ("hb" if isinstance(func, LoopingCall) else "rejoin" if caller == "rejoin_after_error"
+                     else "retry" if caller in ("_get_coordinator_failed", "_get_coordinator_success") else "other")
         orig = dc.canceller
 
         def canceller(c):
@@ -383,9 +389,32 @@ def make_rec_consumer_class():
     return RecConsumer
 
 
+def coordinator_stats(c, sc, logs):
+    """What the simulated coordinator went through in this run (measures the generator: evidence histogram)."""
+    st = {}
+    leader = None
+    for e in c.log:
+        if e.get("kind") != "group":
+            continue
+        ev = e["event"]
+        if ev in ("session-expired", "member-dropped", "member-left", "state-lost", "rebalance-started"):
+            st[ev] = st.get(ev, 0) + 1
+        elif ev == "stable":
+            st["generations"] = st.get("generations", 0) + 1
+            if leader is not None and e.get("leader") is not None and e["leader"] != leader:
+                st["leader-changes"] = st.get("leader-changes", 0) + 1
+            leader = e.get("leader") or leader
+    grown = sc.get("grow")
+    if grown:
+        base = TOPICS[grown["topic"]]
+        st["consumers-on-grown-partitions"] = sum(1 for m in logs for cons in m.consumers if cons.topic == grown["topic"] and cons.partition >= base)
+    return st
+
+
 class FullStackRun(object):
     def __init__(self, seed, scenario):
         self.seed, self.sc = seed, scenario
+        self.stats = {}
         self.logs = []
         self.problems = []  # e2e findings: dicts(what, detail, tags)
         self.error = None
@@ -435,6 +464,28 @@ def gen_scenario(rng, flavour=None):
     if (r_outage < 0.3) if flavour is None else flavour in (2, 3):
         t0 = round(rng.uniform(sc["starts"][-1] + 5, sc["starts"][-1] + 40), 1)
         sc["faults"].append({"outage": "coordinator", "elect": (r_elect < 0.4) if flavour != 2 else False, "t_from": t0, "t_to": t0 + rng.choice([15, 25, 40])})
+    # the group's coordinator MOVES to another live broker (no connection drops; with lose_state the new one knows no
+    # member: everybody is kicked).  The old one answers NOT_COORDINATOR to the heartbeat and to whatever the partition
+    # consumers still have on their way to it; commits are answered late and the look-ups that follow take a while, so
+    # that several error replies for the group arrive at different instants while a look-up is in flight.
+    r_move = rng.random()
+    if (r_move < 0.3) if flavour is None else (r_move < (0.7 if flavour in (0, 1) else 0.25)):
+        t0 = round(rng.uniform(sc["starts"][-1] + 8, sc["starts"][-1] + 40), 1)
+        sc["consumer_kwargs"] = {"auto_commit_every_n": 1}
+        sc["faults"].append({"move": "coordinator", "t_from": t0, "pick": rng.randrange(2), "lose_state": rng.random() < 0.25})
+        # every consumer has a commit on its way when the coordinator moves and the old coordinator is slow to answer
+        # (one request at a time per connection): the heartbeat of the next tick queues between them, so the member sees
+        # NOT_COORDINATOR on the heartbeat, starts its rejoin (a slow coordinator look-up) and the other commits' error
+        # replies come in while that look-up is in flight
+        sc["faults"].append({"delay": "OffsetCommit", "seconds": rng.choice([0.5, 2.0, 3.0, 3.0]), "times": 60, "t_from": t0 - 1, "t_to": t0 + 15})
+        sc["faults"].append({"delay": "GroupCoordinator", "seconds": rng.choice([6.0, 8.0, 8.0]), "times": 20, "t_from": t0, "t_to": t0 + 15})
+        sc["appends"] = sorted(sc["appends"] + [round(t0 - 2 + 0.4 * i, 1) for i in range(30)])
+    # a topic GROWS partitions between generations: the next rebalance (forced by a RebalanceInProgress on a heartbeat
+    # a little later) has the leader load the partitions afresh and hand out the new ones; messages arrive on them
+    if rng.random() < 0.3:
+        tg = round(rng.uniform(sc["starts"][-1] + 5, sc["starts"][-1] + 35), 1)
+        sc["grow"] = {"t": tg, "topic": rng.choice(sorted(TOPICS)), "add": rng.choice([1, 2])}
+        sc["faults"].append({"api": "Heartbeat", "code": 27, "times": 1, "t_from": tg + 1, "t_to": tg + 30})
     sc["t_quiet"] = max([f.get("t_to", f["t_from"] + 40) for f in sc["faults"]] + [sc["starts"][-1], (sc["stop"] or {"t": 0})["t"]])
     sc["t_end"] = sc["t_quiet"] + STABLE_BOUND
     return sc
@@ -479,6 +530,9 @@ def run_fullstack(seed, sc):
                     agenda.append((f["t_to"], "heal", f))
             if sc["stop"]:
                 agenda.append((sc["stop"]["t"], "stop", sc["stop"]["member"]))
+            if sc.get("grow"):
+                agenda.append((sc["grow"]["t"], "grow", sc["grow"]))
+            nparts = dict(TOPICS)
             agenda.sort(key=lambda a: a[0])
             stopped = set()
 
@@ -512,13 +566,31 @@ def run_fullstack(seed, sc):
                         d = g.stop()
                         d.addCallbacks(lambda r, m=mlog: m.ob("stopFired ok"), lambda f, m=mlog: m.ob("stopFired restop"))
                 elif what == "append":
-                    for tp, n in TOPICS.items():
+                    for tp, n in sorted(nparts.items()):
                         c.append(tp, random.Random(int(t * 10)).randrange(n), [b"w"])
+                elif what == "grow":
+                    from harness.sim.cluster import Partition
+
+                    topic = c.topics[arg["topic"]]
+                    nodes = list(c.brokers)
+                    for k in range(arg["add"]):
+                        pid = nparts[arg["topic"]]
+                        topic.partitions[pid] = Partition(arg["topic"], pid, nodes[pid % len(nodes)], [nodes[pid % len(nodes)]])
+                        nparts[arg["topic"]] = pid + 1
+                        c.append(arg["topic"], pid, [b"g0", b"g1"])
                 elif what == "heal":
                     if arg.get("node") is not None:
                         c.start_broker(arg["node"])
                 elif what == "fault":
-                    if "outage" in arg:
+                    if "move" in arg:
+                        # the group's coordinator moves to another live broker (no connection drops): the old one
+                        # answers NOT_COORDINATOR from now on - to the heartbeat AND to whatever the partition
+                        # consumers still send it (commits, offset fetches), each reply at its own instant
+                        old = c.coordinator_of("grp")
+                        others = [n for n in c.alive_ids() if n != old]
+                        if others:
+                            c.move_coordinator("grp", others[arg.get("pick", 0) % len(others)], lose_state=bool(arg.get("lose_state")))
+                    elif "outage" in arg:
                         arg["node"] = c.coordinator_of("grp")
                         if arg["node"] is not None:
                             c.kill_broker(arg["node"], elect=arg["elect"])
@@ -534,6 +606,7 @@ def run_fullstack(seed, sc):
             c.clear_faults()
             advance_to(sc["t_end"])
             e2e_stable(run, c, members, stopped)
+            e2e_wedged(run, c, members, stopped)
             e2e_commits(run, c, members)
             e2e_resume(run, c, members)
             for g, mlog, real in members:
@@ -541,6 +614,7 @@ def run_fullstack(seed, sc):
                     mlog.event(c.clock, "stop")
                     g.stop().addCallbacks(lambda r, m=mlog: m.ob("stopFired ok"), lambda f, m=mlog: m.ob("stopFired restop"))
             advance_to(sc["t_end"] + 30)
+            run.stats = coordinator_stats(c, sc, run.logs)
             if c.violations:
                 run.problems.append({"what": "the simulated brokers could not parse a request strictly", "detail": str(c.violations[:2]), "tags": ["wire-violation"]})
     except Exception as e:  # Livelock etc.: cannot decide this run
@@ -652,6 +726,29 @@ def e2e_stable(run, c, members, stopped):
             })
 
 
+WEDGE_BOUND = 120.0
+
+
+def e2e_wedged(run, c, members, stopped):
+    """'Join in flight' / 'heartbeat in flight' must mean that something is really pending underneath: with faults over
+    for STABLE_BOUND virtual seconds, a member whose `_rejoin_d` or `_heartbeat_request_d` is set has had a group event other than
+    its own timers (a reply, a consumer event) within the last WEDGE_BOUND seconds - the client's own time-outs are 10 s
+    (35 s for a JoinGroup).  Otherwise a call the group made on its client never completed: the member is busy in name
+    only (C17 never idle, seen from below the group/client boundary)."""
+    for i, (g, mlog, _) in enumerate(members):
+        if i in stopped or g._start_d is None or g._stopping:
+            continue
+        idle_for = c.now() - mlog.last_reply
+        if (g._rejoin_d or g._heartbeat_request_d is not None) and idle_for > WEDGE_BOUND:
+            last = [o for s in mlog.steps[-40:] for o in s["obs"] if isinstance(o, str) and o.split()[0] in ("coordLookup", "loadMeta", "join", "loadParts", "sync", "heartbeat")]
+            run.problems.append({
+                "what": "a call the group made on its client has not completed for %.0f virtual seconds although faults ceased %.0f s ago" % (idle_for, STABLE_BOUND),
+                "detail": "%s state %s _rejoin_d=%s heartbeat in flight=%s; last group requests: %s; no reply or consumer event has reached the group since t=%.1f" % (
+                    mlog.name, g._state, bool(g._rejoin_d), g._heartbeat_request_d is not None, last[-3:], mlog.last_reply),
+                "tags": ["e2e-client-call-never-completes"],
+            })
+
+
 def render_steps(mlog):
     """Resolve timer kinds; -> steps with text observations."""
     g = mlog.group
@@ -721,9 +818,9 @@ def check_member(ctx, mlog, pid):
                 s2["snap"] = msnap
         msteps.append(s2)
     mo = ["mon-reset " + S.cfg_words(scn["cfg"])]
-    for s in msteps:
+    for s, mobs in zip(msteps, S.monitor_obs(msteps)):
         mo.append("mon-ev " + s["ev"])
-        mo += ["mon-ob " + o for o in s["obs"]]
+        mo += ["mon-ob " + o for o in mobs]
         mo.append("mon-" + s["snap"])
         mo += ["mon-req " + r for r in s["reqs"]]
     mo.append("mon-end " + pid)
@@ -732,6 +829,7 @@ def check_member(ctx, mlog, pid):
     dis = None
     for i, s in enumerate(steps):
         obs, snap, st = S.split_model_answer(ans[1 + i])
+        s["st"] = st  # the (agreeing) model's control state: what the classification of known findings looks at
         if not obs_equal(s["obs"], obs) or (s["quiescent"] and snap != s["snap"]):
             dis = {"component": "group-fullstack", "member": mlog.name, "step": i, "event": s["ev"],
                    "scenario": {"cfg": scn["cfg"], "events": scn["events"][: i + 1]},
